@@ -28,6 +28,7 @@ CFG = {
         "domain audit: a violation is reported only when Decode fails on, or returns pixels / dimensions other than the source's from, the bytes Encode wrote for an in-range image and option set; per pixel the accepted outcomes are the source pixel, or transparent black when the source alpha is 0 and Exact is off (the statement says 'may', so an encoder that keeps hidden colours without Exact is accepted too; counters observation:alpha-0-*). Demoted to observation:* counters: encode-error (an Encode error writes no bytes: C20/C02), no-vp8l-chunk (file layout: C02), sem-of-recovered-plan-differs-from-decode (decoder vs format: C03). The dec cases carry only the implementation-model field (specification decoder = model of the decoder half); the imp cases print the canonical accepted outcome",
         "far-match pictures (Go Encode -> Go Decode only, no specification decode): more than 2^20 pixels whose tail repeats the pixels P positions earlier, P around the LZ77 window limit 2^20 - 120; quick: 1024x1030 with P = 2^20-60 (Q100, M4) and 2^20-119 (Q76, M2), 200-colour palette content; thorough: P in {2^20-121..2^20+1} x palette/true colour and 16383x70 / 70x16383 pictures",
         "obligations over regenerated constants: C01_window_distance_symbol_in_alphabet (every distance <= lossless.windowSize is written as code 120+distance whose prefix symbol is < NumDistanceCodes), C01_max_length_symbol_in_alphabet (every length <= lossless.maxLength has a symbol < NumLengthCodes)",
+        "the window and maximum match length of the obligations come from their usage sites (GetWindowSizeForHashChain's return at the highest quality, the mask in (*HashChain).GetLength; Gen/Vp8lRoles.v), not from identifier names",
         "unp cases: all 32896 valid premultiplied (channel, alpha) pairs through the *image.RGBA fast path (streaming and writeRIFF paths) vs the model of the repaired fast path (I) and the colour-model formula (S)",
         "defects found on the pinned tree, fixed in /repo: 56944c7 (in-place packed colour-index inverse: <=16 colours, Method>=5, Quality>=75 decoded wrong) and 83481fc (RGBA fast path un-premultiply off by one for 15193 pairs)",
     ],
